@@ -108,5 +108,7 @@ pub fn specs(tier: &str) -> Vec<ExpSpec> {
         };
         v.push(ExpSpec::new(c, alphabet(cs), 2));
     }
+    v.extend(crate::c03::garbage_specs(th));
+    v.extend(crate::c03::fragmented_dir_specs(th));
     v
 }
